@@ -516,6 +516,10 @@ func ruleSentFlag(c *Ctx) {
 					if sc, isCall := sent.V.(*ssa.Call); isCall && calleeFunc(&sc.Call) == isSent {
 						return []Ev{{Kind: "unsub:issent", Note: t.valKey(sent.Fr, callArgs(&sc.Call)[0], t.cur), Stop: true}}
 					}
+					if prm, isP := sent.V.(*ssa.Parameter); isP && prm.Parent() == t.Root && sent.Fr == t.RootFr {
+						// the releasing loop became a helper that is told the sent-ness: its callers decide
+						return []Ev{{Kind: "unsub:param", Stop: true}}
+					}
 					return []Ev{{Kind: "unsub:other", Stop: true}}
 				}
 			}
@@ -562,7 +566,7 @@ func ruleSentFlag(c *Ctx) {
 						}
 					}
 				case "unsub:const-false":
-					if fnName(TopLevel(e.Instr.Parent())) != "(*server.Subscription).subscribeRef" {
+					if fnName(TopLevel(e.Instr.Parent())) != "(*server.Subscription).subscribeRef" && name != "(*server.Subscription).subscribeRef" {
 						bad = "reference released as 'not sent' unconditionally: " + tr.FmtPath(path[:i+1])
 					}
 				case "unsub:const-true", "unsub:other":
